@@ -141,7 +141,7 @@ PROPS["C12"] = dict(
     rule=("request sequences over a 27-symbol alphabet {OPTIONS, DESCRIBE ok|missing, ANNOUNCE ok|bad sdp|no content-type, SETUP video|audio x "
           "tcp|udp|multicast x play|record, SETUP bad transport|unknown control, PLAY, RECORD, PAUSE, GET_PARAMETER, TEARDOWN, FOO}: exhaustive "
           "to length 2 (quick) / 3 (thorough) on the full alphabet, exhaustive to length 4 / 5 on a 10-symbol alphabet with one representative per "
-          "automaton edge, plus seeded random sequences of length 3-12; one fresh real connection per sequence (TCP; every 7th over ws-rtsp) to "
+          "automaton edge, plus 500 (quick) / 30000 (thorough) seeded random sequences of length 3-12; one fresh real connection per sequence (TCP; every 7th over ws-rtsp) to "
           "the in-process server while a real RECORD publisher feeds the source stream. Distinct by (transport, sequence)"),
     level_text=("Reference-automaton monitor over real sockets: per request exactly one response (decided by CSeq order against an OPTIONS probe, "
                 "never by timeout), CSeq echo, constant Session id, status class and successor state per the automaton, no media before 200 PLAY, "
